@@ -56,3 +56,45 @@ def same_object(a, b):
 
 def final(name):      # value of a local of the verified function at return (pyvc only)
     raise NotImplementedError
+
+
+# ---- cryptographic primitives (native meaning; uninterpreted with algebraic laws inside pyvc) -----------------------
+
+def md5(data):
+    import hashlib
+    return hashlib.md5(bytes(data)).digest()
+
+
+def sha256(data):
+    import hashlib
+    return hashlib.sha256(bytes(data)).digest()
+
+
+def _aes(key, mode):
+    from Crypto.Cipher import AES
+    return AES.new(bytes(key), AES.MODE_ECB) if mode == "ecb" else AES.new(bytes(key), AES.MODE_CBC, iv=bytes(16))
+
+
+def aes_ecb_enc(key, data):
+    return _aes(key, "ecb").encrypt(bytes(data))
+
+
+def aes_ecb_dec(key, data):
+    return _aes(key, "ecb").decrypt(bytes(data))
+
+
+def aes_cbc_enc(key, data):
+    return _aes(key, "cbc").encrypt(bytes(data))
+
+
+def aes_cbc_dec(key, data):
+    return _aes(key, "cbc").decrypt(bytes(data))
+
+
+def pkcs7(data):
+    p = 16 - len(data) % 16
+    return bytes(data) + bytes([p]) * p
+
+
+def xor_bytes(a, b):
+    return bytes(x ^ y for x, y in zip(a, b))
